@@ -59,7 +59,9 @@ def run(ctx):
     ctx.rule('C02.R6', 'decision table: deletes only with same(survivor, base) (C18 engine)', floor=15)
     ctx.rule('C02.R7', 'every successful non-dry-run exit of run_bisync passes Archive::save (stale base entries are dropped there)', floor=1)
     bs = deletes_only_on_delete_arms(ctx, F, 'C02.R1')
+    ctx.rule('C02.R8', 'the plan applied is exactly the value reconcile() returned (no filtering between decision and apply)', floor=1)
     bs.every_success_records(ctx, 'C02.R7')
+    bs.plan_is_reconcile_result(ctx, 'C02.R8')
     fl = bs.afl
     cfg = fl.cfg
     copies = bs.copy_sites()
